@@ -1,8 +1,8 @@
 (* Model of /repo/forkable/forkable.go: ProcessBlock and everything it calls, in program order.
    Not modelled (outside every property's quantifier, harness keeps them off): EnsureBlockFlows,
-   the unlinkable-block counters, logging.  The lastLongestChain cache is not part of the model:
-   the model always recomputes ReversibleSegment, so cache coherence is a correspondence
-   obligation exercised by the generator. *)
+   the unlinkable-block counters, logging.  The lastLongestChain cache is not part of this file:
+   fk_step always recomputes ReversibleSegment; Model/ForkableCache.v is ProcessBlock with the
+   cache (fk_step_c), compared with the implementation on every case like fk_step. *)
 From BV Require Import Base.Prelude Model.Block Model.ForkDB.
 Local Open Scope N_scope.
 
